@@ -85,3 +85,26 @@ Definition SignalSpec (s : state2) : Prop :=
   (∀ m1 m2 x, InMessage s m1 x → InMessage s m2 x → m1 = m2) ∧
   (* names are unique among the signals a multiplexer holds directly *)
   (∀ u x y, x ∈ refs_of (xsigs s) u → y ∈ refs_of (xsigs s) u → sname s !! x = sname s !! y → x = y).
+
+(* the same clauses, one definition per sentence of the catalogue *)
+(* C04: "signal names are unique within a message at any multiplexing depth" (and among the signals
+   a multiplexer holds) *)
+Definition SignalNamesUnique (s : state2) : Prop :=
+  (∀ m x y, InMessage s m x → InMessage s m y → sname s !! x = sname s !! y → x = y) ∧
+  (∀ u x y, x ∈ refs_of (xsigs s) u → y ∈ refs_of (xsigs s) u → sname s !! x = sname s !! y → x = y).
+
+(* C04: "lookups by name return exactly the entity with that name" *)
+Definition GetSignalByNameSpec (s : state2) : Prop :=
+  ∀ m nm x, lookup_signal_by_name s m nm = Some x ↔ InMessage s m x ∧ sname s !! x = Some nm.
+
+(* C05: the parent a signal reports (message, multiplexer) lists it, and conversely *)
+Definition SignalParentLinks (s : state2) : Prop :=
+  (∀ m x, spmsg s !! x = Some m ↔ InMessage s m x) ∧
+  (∀ m x, x ∈ refs_of (msigs s) m ↔ InMessage s m x) ∧
+  (∀ u x, spmux s !! x = Some u ↔ x ∈ refs_of (xsigs s) u).
+
+(* C05: a signal sits in at most one payload or one multiplexer, and in one message *)
+Definition SignalExclusive (s : state2) : Prop :=
+  (∀ m x, x ∈ refs_of (mtop s) m → spmux s !! x = None) ∧
+  (∀ m1 m2 x, InMessage s m1 x → InMessage s m2 x → m1 = m2) ∧
+  (∀ u1 u2 x, x ∈ refs_of (xsigs s) u1 → x ∈ refs_of (xsigs s) u2 → u1 = u2).
